@@ -583,7 +583,15 @@ func runMore(a *Analyzer, r *Results) {
 					if cmp, ok := ifi.Cond.(*ssa.BinOp); ok && (cmp.Op == token.NEQ || cmp.Op == token.EQL) {
 						isErrCall := func(v ssa.Value) bool {
 							c, ok := v.(*ssa.Call)
-							return ok && c.Call.IsInvoke() && c.Call.Method.Name() == "Err" && typeShort(c.Call.Value.Type()) == "context.Context"
+							if !(ok && c.Call.IsInvoke() && c.Call.Method.Name() == "Err" && typeShort(c.Call.Value.Type()) == "context.Context") {
+								return false
+							}
+							// the loop's own context, not one derived inside the loop (a per-iteration timeout context is
+							// "done" after every wait: leaving on it gives up after the first failed attempt)
+							if def, isInstr := c.Call.Value.(ssa.Instruction); isInstr && def.Block() != nil && l.Body[def.Block()] {
+								return false
+							}
+							return true
 						}
 						isNil := func(v ssa.Value) bool { k, ok := v.(*ssa.Const); return ok && k.IsNil() }
 						if (isErrCall(cmp.X) && isNil(cmp.Y)) || (isErrCall(cmp.Y) && isNil(cmp.X)) {
@@ -601,7 +609,7 @@ func runMore(a *Analyzer, r *Results) {
 			if !hasSPI {
 				continue
 			}
-			r.Check("Z9", props("C16", "C15"), "a retry / polling loop around an SPI call tests its context in every iteration and leaves when it is done (ctx.Err() != nil on a block that dominates the back edge, or a select with ctx.Done())", funcID(f)+"#loop"+itoa(l.Header.Index), a.P.Pos(f.Pos()), hasCtxExit,
+			r.Check("Z9", props("C16", "C15", "C14", "C11", "C05"), "a retry / polling loop around an SPI call tests its context in every iteration and leaves when it is done (ctx.Err() != nil on a block that dominates the back edge, or a select with ctx.Done())", funcID(f)+"#loop"+itoa(l.Header.Index), a.P.Pos(f.Pos()), hasCtxExit,
 				"the loop in "+funcID(f)+" calls an SPI repeatedly and has no context-based exit that every iteration passes", "X")
 		}
 	}
@@ -672,7 +680,7 @@ func runMore(a *Analyzer, r *Results) {
 		for _, e := range effs {
 			if e.Kind == "return" {
 				ev := a.NewEval(e, r)
-				ev.Require("T8.timer", props("C19", "C16"), "after Stop the trigger holds no timer (the next registration or Stop cannot stop / cancel the old one twice)", "", Eq(Field(trg, "timer"), tNil))
+				ev.Require("T8.timer", props("C19", "C16", "C14", "C12"), "after Stop the trigger holds no timer (the next registration or Stop cannot stop / cancel the old one twice)", "", Eq(Field(trg, "timer"), tNil))
 			}
 		}
 	}
